@@ -26,6 +26,7 @@ let states : (string, st) Hashtbl.t = Hashtbl.create 8
 let slot : (int, string) Hashtbl.t = Hashtbl.create 8
 (* per slot: size asked, state after, position, gap still expected *)
 let pending : (int, int * st * int * (int * int) option ref) Hashtbl.t = Hashtbl.create 8
+let tainted : (string, unit) Hashtbl.t = Hashtbl.create 8     (* files on which a free outside the theorems' hypothesis was seen *)
 let cnt = Hashtbl.create 16
 let bump ?(by = 1) k = Hashtbl.replace cnt k (by + try Hashtbl.find cnt k with Not_found -> 0)
 
@@ -87,7 +88,8 @@ let handle (w : string list) =
                 if n <= 0 || not (in_c_range s (zi (max n 1))) then say (Printf.sprintf "VIOL range free %d %d" a n);
                 if not (ok_step s (OFree (zi a, zi n))) then begin
                   let near = List.filter (fun (p, m) -> iz p < a + n && a < iz p + iz m) s.live in
-                  say (Printf.sprintf "VIOL free-not-live %d:%d fromtags=%s overlapping-live=%s" a n fromtags (regs_str near))
+                  say (Printf.sprintf "VIOL free-not-live %d:%d fromtags=%s overlapping-live=%s" a n fromtags (regs_str near));
+                  (try Hashtbl.replace tainted (Hashtbl.find slot fi) () with Not_found -> ())
                 end else if not (exact_step s (OFree (zi a, zi n))) then begin
                   (match take_live (zi a) s.live with
                    | Some ((_, m), _) -> say (Printf.sprintf "NOTE short-free %d:%d allocated=%d fromtags=%s" a n (iz m) fromtags);
@@ -148,7 +150,7 @@ let run () =
   (* the accounting identity of the model itself, per file (a theorem; evaluated as a self-check of the extraction) *)
   Hashtbl.iter (fun path s ->
       let tot = iz (total (regions s)) in
-      if tot <> iz s.eof + 1 - iz hDR then say (Printf.sprintf "VIOL conservation %s total=%d eof=%d" path tot (iz s.eof));
+      if tot <> iz s.eof + 1 - iz hDR && not (Hashtbl.mem tainted path) then say (Printf.sprintf "VIOL conservation %s total=%d eof=%d" path tot (iz s.eof));
       bump ~by:(iz (total s.live)) "live_bytes"; bump ~by:(iz (total (free_regions s))) "free_list_bytes";
       bump ~by:(iz (total s.dead)) "dead_bytes"; bump ~by:(iz (total s.lost)) "lost_bytes"; bump ~by:(List.length s.small.fl_chunks) "small_entries";
       bump ~by:(List.length s.medium.fl_chunks) "medium_entries"; bump ~by:(List.length s.large.fl_chunks) "large_entries") states;
